@@ -144,10 +144,16 @@ Proof.
 Qed.
 
 Lemma plain_firstn n l : plain_all l -> plain_all (firstn n l).
-Proof. intros H. unfold plain_all in *. rewrite Forall_forall in *. intros x Hx. apply H. eapply firstn_In. exact Hx. Qed.
+Proof.
+  intros H. revert n. induction H as [|s l Hs Hl IH]; intros [|n]; simpl; try constructor; try assumption.
+  apply IH.
+Qed.
 
 Lemma plain_skipn n l : plain_all l -> plain_all (skipn n l).
-Proof. intros H. unfold plain_all in *. rewrite Forall_forall in *. intros x Hx. apply H. eapply skipn_In. exact Hx. Qed.
+Proof.
+  intros H. revert n. induction H as [|s l Hs Hl IH]; intros [|n]; simpl; try constructor; try assumption.
+  apply IH.
+Qed.
 
 (* the core: go down the directory, up to the common prefix, down to the target *)
 Lemma down_up_down d bs :
